@@ -565,7 +565,8 @@ pub fn exec_case(case: &Value, want: &BTreeSet<String>) -> RunOutcome {
             let json_cycles: Vec<Vec<Vec<String>>> = (0..inst.types.len())
                 .map(|t| o.cycles.iter().find(|(id, _)| *id == inst.types[t].id).map(|(_, c)| c.clone()).unwrap_or_default())
                 .collect();
-            if normalized_cycles(&json_cycles) != want_c {
+            let cycles_omitted_without_slots = !inst.has_slots && json_cycles.iter().all(|c| c.iter().all(|x| x.is_empty()));
+            if !cycles_omitted_without_slots && normalized_cycles(&json_cycles) != want_c {
                 ro.violations.push(viol("C16", "C16.json_cycles_not_optimised", format!("vehicleCycles {:?} but the optimiser chose {:?}", normalized_cycles(&json_cycles), want_c)));
             }
         } else {
